@@ -499,12 +499,12 @@ func stackOfRunning(dump string) string {
 	// prefer the goroutine that is running/runnable in repo code
 	parts := strings.Split(dump, "\n\n")
 	for _, p := range parts {
-		if strings.Contains(p, "/repo/") && (strings.Contains(p, "[running]") || strings.Contains(p, "[runnable]")) {
+		if strings.Contains(p, repoPrefix()) && (strings.Contains(p, "[running]") || strings.Contains(p, "[runnable]")) {
 			return p
 		}
 	}
 	for _, p := range parts {
-		if strings.Contains(p, "/repo/") {
+		if strings.Contains(p, repoPrefix()) {
 			return p
 		}
 	}
@@ -606,7 +606,7 @@ func raceKey(blk string) string {
 		if strings.HasPrefix(t, "Write at") || strings.HasPrefix(t, "Read at") || strings.HasPrefix(t, "Previous write") || strings.HasPrefix(t, "Previous read") {
 			lines := strings.Split(t, "\n")
 			for i := 1; i+1 < len(lines); i += 2 {
-				if strings.Contains(lines[i+1], "/repo/") {
+				if strings.Contains(lines[i+1], repoPrefix()) {
 					fn := strings.TrimSpace(lines[i])
 					if p := strings.Index(fn, "("); p > 0 {
 						fn = fn[:p]
